@@ -248,7 +248,7 @@ where
                         };
                         if let Some((_, ir)) = irs
                             .iter_mut()
-                            .find(|(key, _)| prop_name.eq_ignore_span(key))
+                            .find(|(key, _)| is_same_prop_name(&prop_name, key))
                         {
                             if optional {
                                 ir.required = false;
@@ -280,7 +280,7 @@ where
                         };
                         if let Some((_, ir)) = irs
                             .iter_mut()
-                            .find(|(key, _)| prop_name.eq_ignore_span(key))
+                            .find(|(key, _)| is_same_prop_name(&prop_name, key))
                         {
                             ir.types.extend(types);
                         } else {
@@ -303,7 +303,7 @@ where
                         let ty = Some(atom!("Function"));
                         if let Some((_, ir)) = irs
                             .iter_mut()
-                            .find(|(key, _)| prop_name.eq_ignore_span(key))
+                            .find(|(key, _)| is_same_prop_name(&prop_name, key))
                         {
                             if optional {
                                 ir.required = false;
